@@ -46,6 +46,8 @@ func mkErr(tok string) error {
 			plainErrs[n] = fmt.Errorf("plain error %d", n)
 		}
 		return plainErrs[n]
+	case strings.HasPrefix(tok, "wb"): // a block wrapped in another error: a block all the same
+		return fmt.Errorf("hold on: %w", mkErr(tok[1:]))
 	case tok == "bn": // a pause that is over already: finite, not the indefinite block of a zero Delay
 		return mqtttest.ExchangeBlock{Delay: -time.Millisecond}
 	case tok[0] == 'b':
